@@ -1,0 +1,61 @@
+//go:build verif
+
+package ledgerstore
+
+// Contracts for the SQL text the read queries are built from (C20).
+// sqlSafe and the sink rule for bun's builder are declared in /verif/contracts/extern/sql.contracts;
+// the filter expression builder is under contract in libs/query/contracts_verif.go.
+//
+// Every function of accounts.go, balances.go, logs.go, transactions.go and utils.go is verified
+// (sweep): each string handed to a text parameter of bun's builder must be sqlSafe.
+
+// ---- address filters ------------------------------------------------------------
+
+//@ func ledgerstore.filterAccountAddress
+//@   property C20
+//@   requires sqlSafe(key)
+//@   ensures sqlSafe(ret0)
+//@   loop 2 invariant allSafe(parts)
+
+//@ func ledgerstore.filterAccountAddressOnTransactions
+//@   property C20
+//@   ensures sqlSafe(ret0)
+
+//@ func ledgerstore.filterPIT
+//@   property C20
+//@   requires sqlSafe(column)
+//@ func ledgerstore.filterPIT$1
+//@   property C20
+//@   captures sqlSafe(column)
+
+// ---- the WHERE text computed from the client's filter -----------------------------
+
+//@ func (*ledgerstore.Store).accountQueryContext
+//@   property C20
+//@   ensures err == nil ==> sqlSafe(ret0)
+//@ func (*ledgerstore.Store).transactionQueryContext
+//@   property C20
+//@   ensures err == nil ==> sqlSafe(ret0)
+
+//@ func (*ledgerstore.Store).buildAccountListQuery
+//@   property C20
+//@   requires sqlSafe(where)
+//@ func (*ledgerstore.Store).buildTransactionListQuery
+//@   property C20
+//@   requires sqlSafe(where)
+
+//@ func (*ledgerstore.Store).GetAccountsWithVolumes$1
+//@   property C20
+//@   captures sqlSafe(where)
+//@ func (*ledgerstore.Store).CountAccounts$1
+//@   property C20
+//@   captures sqlSafe(where)
+//@ func (*ledgerstore.Store).GetTransactions$1
+//@   property C20
+//@   captures sqlSafe(where)
+//@ func (*ledgerstore.Store).CountTransactions$1
+//@   property C20
+//@   captures sqlSafe(where)
+//@ func (*ledgerstore.Store).GetAggregatedBalances$2
+//@   property C20
+//@   captures sqlSafe(subQuery)
